@@ -63,6 +63,19 @@ def models():
     c = m.problem.Constraint(m.reactions.v1.flux_expression - 2 * m.reactions.v2.flux_expression, lb=1, ub=1, name="user_eq")
     m.add_cons_vars([c])
     out.append(("user_equality", m))
+    # an auxiliary solver variable (with its defining constraint) registered between the reactions: the solver's
+    # variables are then not (forward, reverse) pairs in reaction order
+    m = base("auxvar", cycle=False)
+    aux = m.problem.Variable("aux", lb=0, ub=6)
+    c = m.problem.Constraint(m.reactions.v1.flux_expression - aux, lb=0, ub=0, name="aux_def")
+    m.add_cons_vars([aux, c])
+    A, B = m.metabolites.A, m.metabolites.B
+    r = Reaction("v2", lower_bound=0, upper_bound=5)
+    r.add_metabolites({B: -1, A: 1})
+    r3 = Reaction("v5", lower_bound=-2, upper_bound=4)
+    r3.add_metabolites({A: -1, B: 1})
+    m.add_reactions([r, r3])
+    out.append(("aux_variable_between_reactions", m))
     return out
 
 
@@ -110,11 +123,20 @@ def extract_data(model):
             continue
         coefs = np.zeros(len(ids))
         lin = c.get_linear_coefficients(c.variables)
+        lo, hi = -math.inf if c.lb is None else float(c.lb), math.inf if c.ub is None else float(c.ub)
+        rnames = {r.id for r in model.reactions} | {r.reverse_id for r in model.reactions}
         for var, k in lin.items():
             for j, r in enumerate(model.reactions):
                 if var.name == r.id:  # the reverse variable carries the negated coefficient
                     coefs[j] += float(k)
-        users.append((coefs, -math.inf if c.lb is None else float(c.lb), math.inf if c.ub is None else float(c.ub)))
+            if var.name not in rnames and float(k) != 0:
+                # an auxiliary variable a in [la, ua] with coefficient k: the fluxes must satisfy
+                # lo - max(k a) <= coefs.v <= hi - min(k a)
+                la = -math.inf if var.lb is None else float(var.lb)
+                ua = math.inf if var.ub is None else float(var.ub)
+                ends = (float(k) * la, float(k) * ua)
+                lo, hi = lo - max(ends), hi - min(ends)
+        users.append((coefs, lo, hi))
     return S, lbs, ubs, users
 
 
@@ -366,6 +388,41 @@ def menus_task(mname, model, stats, procs_menu):
                     viol.append(({"sampler": method, "model": mname, "check": "infeasible sample in call %d" % (k + 1),
                                   "space": "flux" if k < 2 else "variables", "processes": p}, case, f"row {row}"))
                     break
+    # two samplers alive at the same time, used out of construction order: each must behave as if it were alone
+    other = dict(models())["forced" if mname.split("@")[0] != "forced" else "homogeneous"]
+    for method in ("achr", "optgp"):
+        stats["menu_calls"] = stats.get("menu_calls", 0) + 1
+        case = {"model": mname, "menu": [method, "two_samplers", 3, 2, 1]}
+        try:
+            with warnings.catch_warnings():
+                warnings.simplefilter("ignore")
+                mk = (lambda mm, sd: ACHRSampler(mm, thinning=2, seed=sd)) if method == "achr" else (
+                    lambda mm, sd: OptGPSampler(mm, processes=1, thinning=2, seed=sd))
+                alone = mk(model, 11).sample(3)
+                sa = mk(model, 11)
+                sb = mk(other, 5)
+                sb.sample(2)
+                first = sa.sample(3)
+        except Exception as exc:
+            if "Cannot escape sampling region" not in str(exc):
+                viol.append(({"sampler": method, "model": mname, "check": "two samplers: raised " + type(exc).__name__,
+                              "space": "flux", "processes": 1}, case, repr(exc)))
+            continue
+        # (whether the numbers equal those of the sampler used alone is not judged: ACHR draws from numpy's global
+        # stream, which the other sampler advances; what the property promises is that every sample is feasible for
+        # the sampler's own model)
+        if list(first.columns) != ids:
+            viol.append(({"sampler": method, "model": mname, "check": "two samplers: columns are not the model's reactions",
+                          "space": "flux", "processes": 1}, case, str(list(first.columns))))
+            continue
+        for row in first.values:
+            ok, near = independent_check(data, row, sa.feasibility_tol, sa.bounds_tol)
+            stats["points"] = stats.get("points", 0) + 1
+            if not ok and near > 0.5 * min(sa.feasibility_tol, sa.bounds_tol):
+                viol.append(({"sampler": method, "model": mname, "check": "two samplers: infeasible sample for the sampler's own model",
+                              "space": "flux", "processes": 1}, case,
+                             f"row {row}\nalone:\n{alone}\nwith another sampler built and used in between:\n{first}"))
+                break
     after = observe.python_view(model), observe.lp_canonical(observe.raw_lp(model), ordered=True)
     if after != before:
         d = observe.diff(before[0], after[0])
